@@ -22,10 +22,11 @@ Theorem C17_schedule : forall n pre evs,
   delivered n pre (evs ++ [Run]) = pre_order n pre ++ completions evs /\
   (wf n pre evs ->
    NoDup (map fst (delivered n pre evs)) /\
-   comb (all_run n pre evs) = fold_left (cbf all_cb) (delivered n pre evs) (all_new n)).
+   comb (all_run n pre evs) = fold_left (cbf all_cb (fun pos => pos)) (delivered n pre evs) (all_new n)).
 Proof.
   intros n pre evs. split; [apply sched_prefix|]. split; [apply sched_flush|].
-  intros H. split; [apply (wf_delivered n pre evs H)|]. unfold all_run, all_call. now apply machine_delivers.
+  intros H. split; [apply (wf_delivered n pre evs H)|]. unfold all_run, all_run_on, all_call_on.
+  rewrite !seq_length. now apply machine_delivers.
 Qed.
 Print Assumptions C17_schedule.
 
@@ -90,6 +91,21 @@ Proof.
   unfold r. rewrite Hr. repeat split. now exists e'.
 Qed.
 Print Assumptions C17_all_sticky.
+
+(* WhenAll on an input list `ars` in which the same result may sit at several positions (`ars` lists indices
+   into a pool of results; Q = the results delivered so far): the value list is the inputs' values POSITION BY
+   POSITION, for every list, every assignment, every pre-completed subset and every completion order. *)
+Theorem C17_all_aliased : forall ars pre evs, awf ars pre evs ->
+  let Q := delivered_on ars pre evs in
+  let r := all_ret (all_run_on ars pre evs) in
+  (forall a e, In (a, Err e) Q -> cval r = None /\ exists a' e', In (a', Err e') Q /\ cexc r = Some e') /\
+  (all_ok Q -> (forall a, In a ars -> In a (map fst Q)) ->
+     r = mkCell (Some (map (value_of Q) ars)) None /\
+     forall a, In a ars -> exists v, In (a, Ok v) Q /\ value_of Q a = Some v) /\
+  (all_ok Q -> (exists a, In a ars /\ ~ In a (map fst Q)) -> r = cempty) /\
+  (csucc r = true -> all_ok Q /\ forall a, In a ars -> In a (map fst Q)).
+Proof. exact all_alias_spec. Qed.
+Print Assumptions C17_all_aliased.
 
 (* WhenAny. *)
 Theorem C17_any : forall n pre evs, wf n pre evs ->
@@ -252,6 +268,7 @@ Example C17_example :
   any_ret (any_run 2 [(0, Err 8%Z)] [Complete 1 (Ok 7%Z); Run]) = mkCell (Some 7%Z) None /\
   uwf (mkChain 2 (Ok 4%Z)) [1] [UComplete 2; URun; UComplete 0; URun] /\
   unwrap_ret (unwrap_run (mkChain 2 (Ok 4%Z)) [1] [UComplete 2; URun; UComplete 0; URun]) = mkCell (Some 4%Z) None /\
+  all_ret (all_run_on [0; 1; 0] [(1, Ok 7%Z)] [Complete 0 (Ok 5%Z); Run]) = mkCell (Some [Some 5%Z; Some 7%Z; Some 5%Z]) None /\
   mwf (mkChain 1 (Err 3%Z)) None [1] [MLevel 0; MIn (Ok 2%Z); MRun] /\
   map_ret (map_run MChain (mkChain 1 (Err 3%Z)) None [1] [MLevel 0; MIn (Ok 2%Z); MRun]) = mkCell None (Some 3%Z).
 Proof.
